@@ -124,17 +124,33 @@ class SimFile:
 class SimDisk:
     """One file on the simulated disk."""
 
-    def __init__(self, content=None):
-        self.fd = os.memfd_create("catii-simdisk")
+    def __init__(self, content=None, backing="memfd"):
+        """backing="memfd": anonymous file; "path": a regular named file on tmpfs (unlinked on close), for code
+        that looks at f.name / stats the path."""
+        self.path = None
+        if backing == "path":
+            d = os.path.join("/dev/shm" if os.path.isdir("/dev/shm") else (os.environ.get("TMPDIR") or "/tmp"),
+                             "catii-simdisk-%d" % os.getpid())
+            os.makedirs(d, exist_ok=True)
+            SimDisk._serial += 1
+            self.path = os.path.join(d, "f%d.indx" % SimDisk._serial)
+            self.fd = os.open(self.path, os.O_RDWR | os.O_CREAT | os.O_TRUNC, 0o600)
+        else:
+            self.fd = os.memfd_create("catii-simdisk")
         if content:
             os.pwrite(self.fd, content, 0)
+
+    _serial = 0
+
+    def _name(self):
+        return self.path if self.path is not None else "/proc/self/fd/%d" % self.fd
 
     def writer(self, mode="raw", bufsize=None, fail_at=None):
         if mode in ("append", "bufappend"):
             # a handle opened for appending (O_APPEND): seek() does not move where writes land
-            f = open("/proc/self/fd/%d" % self.fd, "ab", buffering=0 if mode == "append" else max(2, bufsize or 64))
+            f = open(self._name(), "ab", buffering=0 if mode == "append" else max(2, bufsize or 64))
             return SimFile(self, f, append=True, fail_at=fail_at)
-        raw = io.FileIO(os.dup(self.fd), "r+", closefd=True)
+        raw = io.FileIO(self.path, "r+") if self.path is not None else io.FileIO(os.dup(self.fd), "r+", closefd=True)
         if mode == "raw":
             f = raw
         elif mode == "bufw":
@@ -147,8 +163,10 @@ class SimDisk:
 
     def restart(self, mode="raw"):
         """Fresh open file description at offset 0, as a process started after the crash sees it."""
-        fd = os.open("/proc/self/fd/%d" % self.fd, os.O_RDONLY)
-        raw = io.FileIO(fd, "r", closefd=True)
+        if self.path is not None:
+            raw = io.FileIO(self.path, "r")
+        else:
+            raw = io.FileIO(os.open("/proc/self/fd/%d" % self.fd, os.O_RDONLY), "r", closefd=True)
         return raw if mode == "raw" else io.BufferedReader(raw)
 
     def content(self):
@@ -163,6 +181,15 @@ class SimDisk:
             os.close(self.fd)
         except OSError:
             pass
+        if self.path is not None:
+            try:
+                os.unlink(self.path)
+            except OSError:
+                pass
+            try:
+                os.rmdir(os.path.dirname(self.path))
+            except OSError:
+                pass
 
     def __enter__(self):
         return self
